@@ -190,6 +190,13 @@ def e2e_job(job):
                 calls = calls[:k]
                 vr = v8.run(b, calls, imp, mem_hash=True, module=m)
                 break
+        if job.get("sim"):
+            out["sim_calls_before_truncation"] = len(calls)
+            plan = sim_script(m, exports, calls, vr.results)
+            if plan["start"] != "skip" and plan["keep"] < len(calls):
+                calls = calls[:plan["keep"]]
+                vr = v8.run(b, calls, imp, mem_hash=True, module=m)
+            out["sim_plan"] = plan
         out["ncalls"] = len(calls)
         out["calls_made"] = [[n.decode("latin-1"), [[t, b] for t, b in a]] for n, a in calls]
         out["v8"] = v8_dict(vr)
@@ -219,6 +226,8 @@ def e2e_job(job):
                 ent = {"build": [cc, list(copts), san], "diffs": diffs, "info": info, "real": slim(rr)}
                 if rr.instantiate[0] == "build_error":
                     ent["build_error_class"] = classify_build_error(rr.instantiate[1])
+                if job.get("sim") and rr.mem_bytes is not None:
+                    ent["final_mem_sparse"] = str(len(rr.mem_bytes)) + "".join("/%d:%s" % (mm.start(), mm.group(0).hex()) for mm in re.finditer(rb"[^\x00]+", rr.mem_bytes))
                 if job.get("init_dump") and rr.init is not None and rr.init.get("mem_bytes") is not None:
                     data = rr.init["mem_bytes"]
                     ent["init_mem_sparse"] = str(len(data)) + "".join("/%d:%s" % (mm.start(), mm.group(0).hex()) for mm in re.finditer(rb"[^\x00]+", data))
@@ -496,10 +505,15 @@ NAN_LEAK_OPS = {"i32.reinterpret_f32", "i64.reinterpret_f64", "f32.copysign", "f
 
 
 def _is_core_op(op):
-    if op in CORE_OPS:
+    """instruction covered by Model/Sim.lean (still outside: memory.copy/fill/init, data.drop, atomics)"""
+    if op in CORE_OPS or op in ("global.get", "global.set", "memory.size", "memory.grow"):
         return True
     o = A.OPS.get(op)
-    return o is not None and o.imm == "none" and o.prefix in (None, 0xFC) and op not in ("memory.size", "memory.grow")
+    if o is None:
+        return False
+    if o.imm == "memarg" and o.prefix is None:
+        return True
+    return o.imm == "none" and o.prefix in (None, 0xFC)
 
 
 def _walk(body):
@@ -552,10 +566,19 @@ def core_variant(m, imp):
     return m2
 
 
+WRITE_OPS = {"global.set", "memory.grow", "memory.copy", "memory.fill", "memory.init", "data.drop"}
+FLOAT_STORES = {"f32.store", "f64.store"}
+
+
+def _is_write_op(op):
+    return op in WRITE_OPS or ".store" in op or ".atomic." in op
+
+
 def sim_plan(m):
-    """(omitted defined-function indices, {func index: reachable set}) — static call-graph reachability"""
+    """Static plan for the stateful simulation run: (number of imported functions, defined functions outside the
+    modelled instruction set, reach(f) -> function indices reachable through call / call_indirect)"""
     nimp = sum(1 for i in m.imports if i.kind == "func")
-    omitted = set()
+    omitted, leaky, writers = set(), set(), set()
     direct = {}
     indirect = {}
     for k, f in enumerate(m.funcs):
@@ -563,11 +586,15 @@ def sim_plan(m):
         ops = list(_walk(f.body))
         if not all(_is_core_op(i.op) for i in ops):
             omitted.add(fi)
+        if any(i.op in NAN_LEAK_OPS or i.op in FLOAT_STORES for i in ops):
+            leaky.add(fi)
+        if any(_is_write_op(i.op) for i in ops):
+            writers.add(fi)
         direct[fi] = set(i.imm[0] for i in ops if i.op == "call")
         indirect[fi] = any(i.op == "call_indirect" for i in ops)
     tablefuncs = set(f for seg in m.elems for f in seg.funcs)
-    leaky = set(nimp + k for k, f in enumerate(m.funcs) if any(i.op in NAN_LEAK_OPS for i in _walk(f.body)))
     sim_plan.leaky = leaky
+    sim_plan.writers = writers
 
     def reach(f0):
         seen, todo = set(), [f0]
@@ -584,42 +611,92 @@ def sim_plan(m):
     return nimp, omitted, reach
 
 
-def sim_lines(join, m, imp, calls, exports, depth=6000):
-    """Driver lines for the module-level run of every call whose static call graph stays inside the covered core.
-    Returns (lines, [(line index, call number)], elem line index | None)."""
+def sim_script(m, exports, calls, v8_results):
+    """Which calls of an e2e script the stateful model run can follow.  Returns dict(keep = length of the usable script
+    prefix, run = [bool per kept call], start = 'none'|'run'|'skip', final_valid, leaky = [bool per kept call]).
+    A call is runnable when its static call graph reaches no imported function and no instruction outside the model
+    (bulk memory, atomics).  A call that is not runnable, or that traps (the model does not advance its state on a trap,
+    V8 keeps the partial effects), ends the script if anything it can reach writes globals/memory; otherwise it is
+    state-neutral and the script goes on."""
+    nimp, omitted, reach = sim_plan(m)
+    writers, leaky = sim_plan.writers, sim_plan.leaky
+    exd = {}
+    for nm, f in exports:
+        exd.setdefault(bytes(nm), f)
+
+    def info(f):
+        r = reach(f)
+        return (not any(x < nimp or x in omitted for x in r), any(x in writers for x in r), any(x in leaky for x in r), len(r) > 1)
+    plan = {"keep": len(calls), "run": [], "start": "none", "final_valid": True, "leaky": [], "callees": [], "funcs": []}
+    if m.start is not None:
+        ok, wr, lk, _ = info(m.start)
+        if ok:
+            plan["start"] = "run"
+        elif wr:
+            plan["start"] = "skip"
+            plan["keep"] = 0
+            plan["final_valid"] = False
+            return plan
+    for k, (nm, args) in enumerate(calls):
+        f = exd[bytes(nm)]
+        ok, wr, lk, callees = info(f)
+        trapped = k < len(v8_results) and v8_results[k][0] == "trap"
+        if not ok and wr:
+            plan["keep"] = k
+            break
+        plan["run"].append(ok)
+        plan["leaky"].append(lk)
+        plan["callees"].append(callees)
+        plan["funcs"].append(f)
+        if ok and trapped and wr:
+            plan["keep"] = k + 1
+            plan["final_valid"] = False
+            break
+    return plan
+
+
+def sim_lines(join, m, imp, calls, plan, depth=6000):
+    """Driver lines of the stateful model run of one module.  Returns (lines, {call number: line index}, elem line | None,
+    start line | None)."""
     nimp, omitted, reach = sim_plan(m)
     lines, fl = et.module_lines(join, m)
-    keep = []
     for k, li in enumerate(fl):
         if nimp + k in omitted:
             lines[li] = None
     lines = [l for l in lines if l is not None]
+    gts = m.global_types()
+    n_gi = sum(1 for i in m.imports if i.kind == "global")
+    ords = [n for n, i in enumerate(m.imports) if i.kind == "global"]
+    gl = (imp or {}).get("globals", {})
+    gv = []
+    for k, gt in enumerate(gts):
+        w = 32 if gt.valtype in (A.I32, A.F32) else 64
+        v = int(gl.get(ords[k], gl.get(str(ords[k]), 0))) if k < n_gi else e2e.const_value(m, m.globals[k - n_gi].init, imp)
+        gv.append("%s:%x" % (A.VT_NAME[gt.valtype], v & ((1 << w) - 1)))
+    lines.append("E ginit " + (",".join(gv) or "-"))
+    mems = m.all_mems()
+    if mems:
+        lines.append("E meminit %d %d" % (mems[0].min, mems[0].max if mems[0].max is not None else 65536))
+        for seg in m.datas:
+            if seg.mode == "active" and len(seg.data):
+                lines.append("E data %d %s" % (e2e.const_value(m, seg.offset, imp) & 0xFFFFFFFF, bytes(seg.data).hex()))
     elem_at = None
     tabs = m.all_tables()
     if tabs:
-        segs = ";".join("%d:%s" % (e2e.const_value(m, s.offset, imp) & 0xFFFFFFFF, ",".join(str(f) for f in s.funcs)) for s in m.elems) or "-"
+        segs = ";".join("%d:%s" % (e2e.const_value(m, sg.offset, imp) & 0xFFFFFFFF, ",".join(str(f) for f in sg.funcs)) for sg in m.elems) or "-"
         elem_at = len(lines)
         lines.append("E elem %d %s" % (tabs[0].limits.min, segs))
-    exd = {}
-    for nm, f in exports:
-        exd.setdefault(bytes(nm), f)
-    runs = []
-    ncallers = [0]
-    leaky_runs = set()
-    sim_lines.last_callers = ncallers
-    sim_lines.last_leaky = leaky_runs
-    for cn, (nm, args) in enumerate(calls):
-        f = exd[bytes(nm)]
-        r = reach(f)
-        if any(x < nimp or x in omitted for x in r):
-            continue
-        if len(r) > 1:
-            ncallers[0] += 1
-        if any(x in sim_plan.leaky for x in r):
-            leaky_runs.add(cn)
-        runs.append((len(lines), cn))
-        lines.append("E mrun %d %d %s" % (depth, f, ",".join("%s:%x" % (t, b) for t, b in args) or "-"))
-    return lines, runs, elem_at
+    start_at = None
+    if plan["start"] == "run":
+        start_at = len(lines)
+        lines.append("E mrun %d %d -" % (depth, m.start))
+    runs = {}
+    for cn in range(plan["keep"]):
+        if plan["run"][cn]:
+            nm, args = calls[cn]
+            runs[cn] = len(lines)
+            lines.append("E mrun %d %d %s" % (depth, plan["funcs"][cn], ",".join("%s:%x" % (t, b) for t, b in args) or "-"))
+    return lines, runs, elem_at, start_at
 
 
 def parse_sim_out(s):
@@ -634,72 +711,306 @@ def parse_sim_out(s):
     return None
 
 
-def sim_tie(env, results, driver_ok=True):
-    """For every e2e job result (made with sim=True: core variant): Lean source semantics vs V8 vs real compiled output,
-    and tgt = src.  Returns dict(cases, skipped{...}, disagreements[...], tables_compared)."""
-    out = {"cases": 0, "calls_considered": 0, "skipped": {}, "disagreements": [], "tables_compared": 0, "outcomes": {}}
-    lines, plan = [], []
+_SIDE = re.compile(r"^(?P<res>.*?)(?: g (?P<g>\S*) pages (?P<p>\d+))?(?: memeq (?P<m>[01]))?\s*$")
+
+
+def parse_mrun(ans):
+    """`src <out>[ g <vals> pages <n>] | tgt <out>[ g … pages n][ memeq b]` -> dict or None"""
+    if not ans.startswith("src "):
+        return None
+    a, sep, b = ans[4:].partition(" | tgt ")
+    if not sep:
+        return None
+    ma, mb = _SIDE.match(a), _SIDE.match(b)
+
+    def gl(x):
+        return None if x is None else [(t.split(":")[0], int(t.split(":")[1], 16)) for t in x.split(",") if t]
+    return {"src_text": ma.group("res").strip(), "tgt_text": mb.group("res").strip(),
+            "src": parse_sim_out(ma.group("res")), "tgt": parse_sim_out(mb.group("res")),
+            "src_g": gl(ma.group("g")), "tgt_g": gl(mb.group("g")), "src_pages": ma.group("p") and int(ma.group("p")),
+            "tgt_pages": mb.group("p") and int(mb.group("p")), "memeq": mb.group("m")}
+
+
+def _sparse_runs(sparse, cap=64, maxlen=512):
+    """[(offset, bytes)] of the non-zero runs of a `size/off:hex/…` string (first `cap` runs, each cut to maxlen)"""
+    parts = sparse.split("/")
+    out = []
+    for t in parts[1:1 + cap]:
+        o, h = t.split(":")
+        out.append((int(o), bytes.fromhex(h)[:maxlen]))
+    return int(parts[0]), out
+
+
+def sim_tie(env, results, driver_ok=True, window=4096):
+    """For every e2e job result made with sim=True: the Lean simulation's SOURCE semantics (Model/Sim.lean: control flow,
+    locals, globals, loads/stores, memory.size/grow, stateful calls; `E mrun` threads ONE instance state through the
+    script) vs V8 vs the real compiled output, call by call, and tgt = src; final globals / pages / memory windows vs the
+    real instance.  Returns counters + disagreements."""
+    out = {"cases": 0, "calls_considered": 0, "skipped": {}, "disagreements": [], "tables_compared": 0, "outcomes": {},
+           "modules": 0, "modules_with_memory": 0, "modules_with_globals": 0, "calls_in_modules_with_memory": 0,
+           "calls_in_modules_with_globals": 0, "start_functions_run": 0, "grows_observed": 0, "final_states_compared": 0,
+           "memory_bytes_compared": 0, "global_values_compared": 0, "runs_whose_call_graph_has_callees": 0,
+           "state_neutral_calls_skipped": 0}
+    lines, plans = [], []
+
+    def skip(k, n=1):
+        out["skipped"][k] = out["skipped"].get(k, 0) + n
     for res in results:
-        if res.get("error") or not res.get("builds") or res["builds"][0]["real"]["instantiate"] != ("ok",):
+        if res.get("error") or not res.get("builds") or "sim_plan" not in res:
+            continue
+        real = res["builds"][0]["real"]
+        if tuple(real["instantiate"]) != ("ok",):
+            continue
+        plan = res["sim_plan"]
+        out["calls_considered"] += res.get("sim_calls_before_truncation", len(res["calls_made"]))
+        if plan["start"] == "skip":
+            skip("start-function-leaves-model", 1)
             continue
         m, b, imp, exports = load_module(res["spec"])
         calls = [(n.encode("latin-1"), [(t, int(v)) for t, v in a]) for n, a in res["calls_made"]]
         try:
-            ls, runs, elem_at = sim_lines(env.join, m, imp, calls, exports)
+            ls, runs, elem_at, start_at = sim_lines(env.join, m, imp, calls, plan)
         except et.Unsupported:
-            out["skipped"]["module-outside-emit-model"] = out["skipped"].get("module-outside-emit-model", 0) + 1
+            skip("module-outside-emit-model")
             continue
-        out["calls_considered"] += len(calls)
-        out["runs_whose_call_graph_has_callees"] = out.get("runs_whose_call_graph_has_callees", 0) + sim_lines.last_callers[0]
-        out["skipped"]["static-call-graph-leaves-core"] = out["skipped"].get("static-call-graph-leaves-core", 0) + len(calls) - len(runs)
-        plan.append((res, len(lines), runs, elem_at, set(sim_lines.last_leaky)))
+        base = len(lines)
         lines += ls
+        # memory windows to read back at the end: the first `window` bytes, every active segment, every non-zero run of the real dump
+        peeks = []
+        fsp = res["builds"][0].get("final_mem_sparse")
+        if plan["final_valid"] and fsp is not None and runs:
+            size, rr_runs = _sparse_runs(fsp)
+            want = [(0, min(window, size))]
+            for seg in m.datas:
+                if seg.mode == "active" and len(seg.data):
+                    o = e2e.const_value(m, seg.offset, imp) & 0xFFFFFFFF
+                    want.append((o, min(len(seg.data), 512)))
+            want += [(o, len(bs)) for o, bs in rr_runs]
+            for o, n in want:
+                if n > 0 and o + n <= size:
+                    peeks.append((len(lines), o, n))
+                    lines.append("E mpeek %d %d" % (o, n))
+        plans.append((res, m, plan, base, runs, elem_at, start_at, peeks))
     if not (lines and driver_ok and env.driver):
         return out
-    ans = vlib.DriverProc(env.driver).batch(lines, timeout=3600)
-    for res, base, runs, elem_at, leaky in plan:
+    ans = vlib.DriverProc(env.driver).batch(lines, timeout=7200)
+    for res, m, plan, base, runs, elem_at, start_at, peeks in plans:
+        sid = res["id"]
         real = res["builds"][0]["real"]
         v8r = res["v8"]["results"]
+        has_mem = bool(m.all_mems())
+        has_glob = bool(m.global_types())
+        out["modules"] += 1
+        out["modules_with_memory"] += has_mem
+        out["modules_with_globals"] += has_glob
+
+        def bad(what, **kw):
+            out["disagreements"].append(dict({"module": sid, "what": what}, **kw))
         if elem_at is not None and real.get("table") is not None:
             a = ans[base + elem_at]
             if a.startswith("tbl"):
                 mt = [None if x == "-" else int(x) for x in a[4:].split(",")] if a[4:] else []
                 out["tables_compared"] += 1
                 if mt != list(real["table"]):
-                    out["disagreements"].append({"module": res["id"], "what": "E elem (Model.initTable) vs table of the real instance",
-                                                 "model": mt, "real": real["table"]})
+                    bad("E elem (Model.initTable) vs table of the real instance", model=mt, real=real["table"])
             else:
-                out["disagreements"].append({"module": res["id"], "what": "E elem", "model": a[:200]})
-        for li, cn in runs:
-            a = ans[base + li]
-            if not a.startswith("src "):
-                out["skipped"]["driver:" + a[:24]] = out["skipped"].get("driver:" + a[:24], 0) + 1
+                bad("E elem", model=a[:200])
+        tainted = False           # a NaN payload (left open by the spec) may have leaked into integer bits / control flow
+        alive = True
+        last = None
+        if start_at is not None:
+            p = parse_mrun(ans[base + start_at])
+            if p is None or p["src"] is None or p["src"][0] != "val":
+                skip("start:" + (ans[base + start_at][:30]))
+                alive = False
+            else:
+                out["start_functions_run"] += 1
+                last = p
+                if p["tgt"] != p["src"] or p["tgt_g"] != p["src_g"] or p["tgt_pages"] != p["src_pages"] or p["memeq"] != "1":
+                    bad("start function: tgt != src", answer=ans[base + start_at][:300])
+        pages_before = last["src_pages"] if last else None
+        for cn in range(plan["keep"]):
+            if not alive:
+                break
+            if not plan["run"][cn]:
+                out["state_neutral_calls_skipped"] += 1
                 continue
-            src_s, _, tgt_s = a[4:].partition(" | tgt ")
-            src = parse_sim_out(src_s)
-            if src is None:
-                k = "src:" + " ".join(src_s.split()[:2])
-                out["skipped"][k] = out["skipped"].get(k, 0) + 1
-                continue
+            a = ans[base + runs[cn]]
+            p = parse_mrun(a)
+            if p is None:
+                skip("driver:" + a[:24])
+                alive = False
+                break
+            if p["src"] is None:
+                skip("src:" + " ".join(p["src_text"].split()[:2]))
+                alive = False
+                break
+            tainted = tainted or plan["leaky"][cn]
             out["cases"] += 1
-            ok = src[0] if src[0] != "trap" else "trap:" + src[1]
+            out["calls_in_modules_with_memory"] += has_mem
+            out["calls_in_modules_with_globals"] += has_glob
+            out["runs_whose_call_graph_has_callees"] += bool(plan["callees"][cn])
+            ok = p["src"][0] if p["src"][0] != "trap" else "trap:" + p["src"][1]
             out["outcomes"][ok] = out["outcomes"].get(ok, 0) + 1
-            tgt = parse_sim_out(tgt_s)
-            v = tuple(v8r[cn]) if cn < len(v8r) else None
+            v = v8r[cn] if cn < len(v8r) else None
             r = real["results"][cn] if cn < len(real["results"]) else None
-            v = (v[0], [tuple(x) for x in v[1]]) if v and v[0] == "val" else v
+            v = (v[0], [tuple(x) for x in v[1]]) if v and v[0] == "val" else (tuple(v) if v else v)
             r = (r[0], [tuple(x) for x in r[1]]) if r and r[0] == "val" else (tuple(r) if r else r)
-            bad = []
-            if tgt is None or not (tgt == src or e2e.same_result(tgt, src)):
-                bad.append("tgt != src")
-            if v is None or not e2e.same_result(src, v):
-                bad.append("src != V8")
-            if r is None or not e2e.same_result(r, src):
-                bad.append("src != real")
-            if bad and "tgt != src" not in bad and cn in leaky and v is not None and r is not None and e2e.same_result(r, v):
-                # V8 and the compiled output agree (same hardware NaN), the model's canonical NaN leaked through reinterpret/copysign
-                out["nan_payload_leaks_tolerated"] = out.get("nan_payload_leaks_tolerated", 0) + 1
-            elif bad:
-                out["disagreements"].append({"module": res["id"], "call": res["calls_made"][cn], "what": ", ".join(bad),
-                                             "src": src_s, "tgt": tgt_s, "v8": v, "real": r})
+            problems = []
+            if p["tgt"] is None or not (p["tgt"] == p["src"] or e2e.same_result(p["tgt"], p["src"])):
+                problems.append("tgt != src")
+            elif p["src"][0] == "val" and (p["tgt_g"] != p["src_g"] or p["tgt_pages"] != p["src_pages"] or p["memeq"] != "1"):
+                problems.append("tgt state != src state")
+            if v is None or not e2e.same_result(p["src"], v):
+                problems.append("src != V8")
+            if r is None or not e2e.same_result(r, p["src"]):
+                problems.append("src != real")
+            if p["src"][0] == "val":
+                if pages_before is not None and p["src_pages"] is not None and p["src_pages"] != pages_before:
+                    out["grows_observed"] += 1
+                pages_before = p["src_pages"]
+                last = p
+            if problems:
+                if tainted and not any(x.startswith("tgt") for x in problems) and v is not None and r is not None and e2e.same_result(r, v):
+                    out["nan_payload_leaks_tolerated"] = out.get("nan_payload_leaks_tolerated", 0) + 1
+                else:
+                    bad(", ".join(problems), call=res["calls_made"][cn], answer=a[:400], v8=v, real=r)
+                alive = False       # the states may have diverged
+        # final state
+        if alive and plan["final_valid"] and last is not None and plan["keep"] == len(res["calls_made"]):
+            out["final_states_compared"] += 1
+            fin = real.get("all_globals") or {}
+            mg = last["src_g"] or []
+            for k, (t, bits) in enumerate(mg):
+                rg = fin.get(k, fin.get(str(k)))
+                if rg is None:
+                    continue
+                out["global_values_compared"] += 1
+                if not e2e.same_vals([(t, bits)], [tuple(rg)]):
+                    if tainted:
+                        out["nan_payload_leaks_tolerated"] = out.get("nan_payload_leaks_tolerated", 0) + 1
+                    else:
+                        bad("final value of global %d" % k, model=(t, bits), real=rg)
+                    break
+            if has_mem and real.get("mem") and last["src_pages"] is not None and last["src_pages"] != real["mem"]["pages"]:
+                bad("final page count", model=last["src_pages"], real=real["mem"]["pages"])
+            fsp = res["builds"][0].get("final_mem_sparse")
+            if peeks and fsp is not None:
+                size, rr_runs = _sparse_runs(fsp, cap=100000, maxlen=1 << 30)
+                img = {}
+                for o, bs in rr_runs:
+                    img[o] = bs
+
+                def real_bytes(o, n):
+                    buf = bytearray(n)
+                    for ro, bs in rr_runs:
+                        lo, hi = max(o, ro), min(o + n, ro + len(bs))
+                        if lo < hi:
+                            buf[lo - o:hi - o] = bs[lo - ro:hi - ro]
+                    return bytes(buf)
+                for li, o, n in peeks:
+                    a = ans[li]
+                    if not a.startswith("bytes "):
+                        bad("E mpeek", answer=a[:100])
+                        break
+                    mb = bytes.fromhex(a[6:].strip())
+                    rb = real_bytes(o, n)
+                    out["memory_bytes_compared"] += n
+                    if mb != rb and not (tainted and nan_only_diff(mb, rb)):
+                        k = next(i for i in range(n) if mb[i] != rb[i])
+                        bad("final memory at %d" % (o + k), model=mb[k:k + 16].hex(), real=rb[k:k + 16].hex())
+                        break
     return out
+
+
+def sim_directed_specs():
+    """Hand-built modules that make the stateful part of the simulation tie deterministic: memory.grow up to and beyond the
+    declared maximum, memory.size, stores/loads of every width at page ends and in grown pages, mutable globals of all four
+    types, callees that write state their callers read."""
+    I = A.Instr
+    m = A.Module()
+    m.types = [A.FuncType([A.I32], [A.I32]), A.FuncType([], [A.I32]), A.FuncType([A.I32, A.I32], [A.I32]), A.FuncType([A.I32, A.I64], [A.I64]),
+               A.FuncType([A.I32, A.F64], [A.F64]), A.FuncType([A.I64], [A.I64]), A.FuncType([A.F32], [A.F32])]
+    m.mems = [A.Limits(1, 4)]
+    m.globals = [A.Global(A.GlobalType(A.I32, True), I("i32.const", 5)), A.Global(A.GlobalType(A.I64, True), I("i64.const", -3)),
+                 A.Global(A.GlobalType(A.F32, True), I("f32.const", 0x3FC00000)), A.Global(A.GlobalType(A.F64, True), I("f64.const", 0x4000000000000000))]
+    m.datas = [A.DataSegment("active", b"\x01\x02\x03\x04\xff\xfe", I("i32.const", 65530), 0), A.DataSegment("active", b"sim", I("i32.const", 8), 0)]
+    F = []
+    F.append((b"grow", 0, [I("local.get", 0), I("memory.grow")]))
+    F.append((b"size", 1, [I("memory.size")]))
+    F.append((b"st32", 2, [I("local.get", 0), I("local.get", 1), I("i32.store", 2, 0), I("local.get", 0), I("i32.load", 0, 0)]))
+    F.append((b"st16ld8s", 2, [I("local.get", 0), I("local.get", 1), I("i32.store16", 0, 1), I("local.get", 0), I("i32.load8_s", 0, 2)]))
+    F.append((b"st64", 3, [I("local.get", 0), I("local.get", 1), I("i64.store", 0, 3), I("local.get", 0), I("i64.load32_u", 0, 5)]))
+    F.append((b"stf", 4, [I("local.get", 0), I("local.get", 1), I("f64.store", 3, 16), I("local.get", 0), I("f64.load", 0, 16)]))
+    F.append((b"ld8u", 0, [I("local.get", 0), I("i32.load8_u", 0, 0)]))
+    F.append((b"gadd", 0, [I("global.get", 0), I("local.get", 0), I("i32.add"), I("global.set", 0), I("global.get", 0)]))
+    F.append((b"gmul", 5, [I("global.get", 1), I("local.get", 0), I("i64.mul"), I("global.set", 1), I("global.get", 1)]))
+    F.append((b"gf", 6, [I("global.get", 2), I("local.get", 0), I("f32.add"), I("global.set", 2), I("global.get", 3), I("f64.const", 0x3FE0000000000000),
+                        I("f64.mul"), I("global.set", 3), I("global.get", 2)]))
+    # a caller that reads what its callees wrote: st32(a, g0) through call, then grow(1), then size*1000 + load
+    F.append((b"chain", 0, [I("local.get", 0), I("i32.const", 7), I("call", 7), I("call", 2), I("drop"), I("i32.const", 1), I("call", 0), I("drop"),
+                           I("call", 1), I("i32.const", 1000), I("i32.mul"), I("local.get", 0), I("call", 6), I("i32.add")]))
+    for nm, ty, body in F:
+        m.funcs.append(A.Function(ty, [], body))
+        m.exports.append(A.Export(nm, "func", len(m.funcs) - 1))
+    m.exports.append(A.Export(b"mem", "memory", 0))
+    for k in range(4):
+        m.exports.append(A.Export(b"g%d" % k, "global", k))
+    P = 65536
+    calls = [(b"size", []), (b"ld8u", [("i32", 65535)]), (b"ld8u", [("i32", 9)]), (b"grow", [("i32", 1)]), (b"size", []),
+             (b"st32", [("i32", P + 4), ("i32", 0xDEADBEEF)]), (b"st16ld8s", [("i32", P - 3), ("i32", 0x80F1)]), (b"grow", [("i32", 5)]),
+             (b"grow", [("i32", 0)]), (b"grow", [("i32", 2)]), (b"size", []), (b"st64", [("i32", 4 * P - 16), ("i64", 0x1122334455667788)]),
+             (b"stf", [("i32", 100), ("f64", 0x400921FB54442D18)]), (b"gadd", [("i32", 0xFFFFFFFF)]), (b"gadd", [("i32", 100)]),
+             (b"gmul", [("i64", 0x100000001)]), (b"gf", [("f32", 0x40200000)]), (b"gf", [("f32", 0xBF800000)]), (b"grow", [("i32", 1)]),
+             (b"chain", [("i32", 300)]), (b"ld8u", [("i32", 300)]), (b"size", [])]
+    spec = {"hex": encode(m).hex(), "imports_spec": {"globals": {}}, "id": "sim-directed/grow-store-globals-chain",
+            "calls": [[n.hex(), [[t, b] for t, b in a]] for n, a in calls]}
+    # the same module with max == min: every grow(>0) fails
+    m.mems = [A.Limits(1, 1)]
+    calls2 = [(b"grow", [("i32", 1)]), (b"size", []), (b"grow", [("i32", 0)]), (b"st32", [("i32", P - 4), ("i32", 77)]), (b"gadd", [("i32", 1)]), (b"size", [])]
+    spec2 = {"hex": encode(m).hex(), "imports_spec": {"globals": {}}, "id": "sim-directed/grow-at-maximum",
+             "calls": [[n.hex(), [[t, b] for t, b in a]] for n, a in calls2]}
+    return [spec, spec2]
+
+
+def sim_step(chk, PROP, env, specs, per_func, driver_ok, broken, judge=None, stats=None, behav=None, prefix="sim_semantics_"):
+    """Run `specs` e2e with sim-friendly scripts, judge the e2e part with `judge(chk, PROP, res, stats) -> bool` (behavioural
+    violation found), then the stateful sim-semantics tie; counters go to chk.coverage under `prefix`, disagreements that the e2e
+    run does not explain to `broken` as correspondence `sim-semantics`."""
+    behav = set() if behav is None else behav
+    specs = sim_directed_specs() + list(specs)
+    jobs = [dict(spec=s, env=env.tuple(), builds=[("gcc", ("-O1",), False)], per_func=per_func, keep_mem=True, memdiag=True, sim=True)
+            for s in specs]
+    results = run_jobs(jobs)
+    for res in results:
+        if judge is not None and judge(chk, PROP, res, stats):
+            behav.add(res["id"])
+    sim = sim_tie(env, results, driver_ok=driver_ok)
+    chk.coverage["evaluations"] += sim["cases"]
+    unexplained = [x for x in sim["disagreements"] if x["module"] not in behav]
+    if unexplained:
+        broken.append({"kind": "correspondence", "name": "sim-semantics",
+                       "msg": "%d disagreement(s) between Model.Sim (src/tgt over the instance state), V8 and the real output; first: %r"
+                              % (len(sim["disagreements"]), unexplained[0]),
+                       "modules": sorted(set(x["module"] for x in unexplained))[:10]})
+    cov = {prefix + "modules": sim["modules"], prefix + "cases": sim["cases"], prefix + "outcomes": sim["outcomes"],
+           prefix + "skipped": sim["skipped"], prefix + "calls_considered": sim["calls_considered"],
+           prefix + "disagreements": len(sim["disagreements"]),
+           prefix + "nan_payload_leaks_tolerated": sim.get("nan_payload_leaks_tolerated", 0),
+           prefix + "runs_whose_call_graph_has_callees": sim["runs_whose_call_graph_has_callees"],
+           prefix + "tables_compared_with_E_elem": sim["tables_compared"],
+           prefix + "modules_with_memory": sim["modules_with_memory"], prefix + "modules_with_globals": sim["modules_with_globals"],
+           prefix + "calls_in_modules_with_memory": sim["calls_in_modules_with_memory"],
+           prefix + "calls_in_modules_with_globals": sim["calls_in_modules_with_globals"],
+           prefix + "grows_observed": sim["grows_observed"], prefix + "start_functions_run": sim["start_functions_run"],
+           prefix + "final_states_compared": sim["final_states_compared"], prefix + "memory_bytes_compared": sim["memory_bytes_compared"],
+           prefix + "global_values_compared": sim["global_values_compared"],
+           prefix + "state_neutral_calls_skipped": sim["state_neutral_calls_skipped"]}
+    for k, v in cov.items():
+        if isinstance(v, int) and isinstance(chk.coverage.get(k), int):
+            chk.coverage[k] += v
+        elif isinstance(v, dict) and isinstance(chk.coverage.get(k), dict):
+            merge_hist(chk.coverage[k], v)
+        else:
+            chk.coverage[k] = v
+    return sim, results
